@@ -514,6 +514,6 @@ func runCase(c Case, ctx *hx.Ctx) *hx.Failure {
 	return nil
 }
 
-func TestPropIsolation(t *testing.T) { hx.Check(t, 3000, genCase, runCase) }
+func TestPropIsolation(t *testing.T) { hx.Check(t, 6000, genCase, runCase) }
 
 func TestReplay(t *testing.T) { hx.Replay(t, "TestPropIsolation", 20, runCase) }
